@@ -54,6 +54,8 @@ type EvoScenario struct {
 	// one ReadPopulation restores from that text (evolve -> store -> restore -> evolve on)
 	RestoreAt int
 	restoring bool
+	// coarseFitness (C17): the deterministic fitness function takes five values only
+	coarseFitness bool
 	// SwitchOptsAt > 0: from the epoch with this index on the executor (the same object) is handed a context that carries
 	// another Options object: a by-value copy with the survival threshold, age significance, drop-off age and stolen babies changed
 	SwitchOptsAt int
